@@ -724,29 +724,31 @@ func (f *Frame) builtinAppend(in ssa.Instruction, c *ssa.CallCommon, guard strin
 	sarr := e.define("ap_old", "(Array Int "+es+")", fmt.Sprintf("(select %s (s-ref %s))", h, s.T))
 	nref := e.newRef(st, "ap")
 	ncap := e.fresh("ap_cap", sInt)
-	e.assert(fmt.Sprintf("(and (>= %s %s) (< %s 4611686018427387904))", ncap, n, ncap))
+	e.assert(fmt.Sprintf("(and (>= %s %s) (< (+ (s-off %s) %s) 4611686018427387904))", ncap, n, s.T, ncap))
 	var inplace, fresh string
+	// The reallocated backing array keeps the old offset (offsets are unobservable), so that the copied prefix has
+	// the same absolute indices in both arrays: facts are stated with bare indices.
+	end := fmt.Sprintf("(+ (s-off %s) (s-len %s))", s.T, s.T)
 	if single != "" {
-		inplace = fmt.Sprintf("(store %s (+ (s-off %s) (s-len %s)) %s)", sarr, s.T, s.T, single)
+		inplace = fmt.Sprintf("(store %s %s %s)", sarr, end, single)
 		fa := e.fresh("ap_new", "(Array Int "+es+")")
-		e.assert(fmt.Sprintf("(forall ((k Int)) (! (=> (and (<= 0 k) (< k (s-len %s))) (= (select %s k) (select %s (+ (s-off %s) k)))) :pattern ((select %s k))))", s.T, fa, sarr, s.T, fa))
-		e.assert(fmt.Sprintf("(= (select %s (s-len %s)) %s)", fa, s.T, single))
+		e.assert(fmt.Sprintf("(forall ((k Int)) (! (=> (and (<= (s-off %s) k) (< k %s)) (= (select %s k) (select %s k))) :pattern ((select %s k))))", s.T, end, fa, sarr, fa))
+		e.assert(fmt.Sprintf("(= (select %s %s) %s)", fa, end, single))
 		fresh = fa
 	} else {
 		ia := e.fresh("ap_inpl", "(Array Int "+es+")")
-		end := fmt.Sprintf("(+ (s-off %s) (s-len %s))", s.T, s.T)
 		e.assert(fmt.Sprintf("(forall ((k Int)) (! (= (select %s k) (ite (and (<= %s k) (< k (+ %s %s))) %s (select %s k))) :pattern ((select %s k))))",
 			ia, end, end, tLen, tAt(fmt.Sprintf("(- k %s)", end)), sarr, ia))
 		inplace = ia
 		fa := e.fresh("ap_new", "(Array Int "+es+")")
-		e.assert(fmt.Sprintf("(forall ((k Int)) (! (=> (and (<= 0 k) (< k %s)) (= (select %s k) (ite (< k (s-len %s)) (select %s (+ (s-off %s) k)) %s))) :pattern ((select %s k))))",
-			n, fa, s.T, sarr, s.T, tAt(fmt.Sprintf("(- k (s-len %s))", s.T)), fa))
+		e.assert(fmt.Sprintf("(forall ((k Int)) (! (=> (and (<= (s-off %s) k) (< k (+ (s-off %s) %s))) (= (select %s k) (ite (< k %s) (select %s k) %s))) :pattern ((select %s k))))",
+			s.T, s.T, n, fa, end, sarr, tAt(fmt.Sprintf("(- k %s)", end)), fa))
 		fresh = fa
 	}
 	// in-place writes must be allowed by the frame
 	f.frameCheckRegionCond(in, hn, fmt.Sprintf("(s-ref %s)", s.T), fmt.Sprintf("(+ (s-off %s) (s-len %s))", s.T, s.T), fmt.Sprintf("(+ (s-off %s) %s)", s.T, n), and(guard, fits, fmt.Sprintf("(> %s 0)", tLen)), st)
 	e.setHeap(st, hn, hs, fmt.Sprintf("(ite %s (ite (> %s 0) (store %s (s-ref %s) %s) %s) (store %s %s %s))", fits, tLen, h, s.T, inplace, h, h, nref, fresh))
-	res := fmt.Sprintf("(ite %s (mk-slice (s-ref %s) (s-off %s) %s (s-cap %s)) (mk-slice %s 0 %s %s))", fits, s.T, s.T, n, s.T, nref, n, ncap)
+	res := fmt.Sprintf("(ite %s (mk-slice (s-ref %s) (s-off %s) %s (s-cap %s)) (mk-slice %s (s-off %s) %s %s))", fits, s.T, s.T, n, s.T, nref, s.T, n, ncap)
 	r := e.define("ap_res", sSlice, res)
 	return Val{T: r, Typ: rt}
 }
